@@ -189,6 +189,9 @@ Json::Value genCase() {
     dg.append(det("b" + std::to_string(i) + "d"));
     rs["detectors"].append(dg);
     rs["actions"].append(act("b" + std::to_string(i) + "a"));
+    // a base ruleset evaluated per matching cgroup (exactly one matches here): targeting, disabling and
+    // re-enabling it by drop-ins works as for any other base
+    if (P(20)) rs["cgroup"] = "c";
     base["rulesets"].append(rs);
   }
   int nh = R(0, 2);
